@@ -22,19 +22,28 @@ use crate::verif_common::*;
 use crate::verif_model::Arc;
 use crate::BinOperator;
 
-fn declare() {
+/// Declared shape, level by level (lib/patch.py `verif_gate`): the instruction kinds at nesting depth
+/// 0, 1, 2 and >= 3 of the twin trees of a scenario (literal twin, its folded form, hidden-constant twin).
+fn levels(l0: u32, l1: u32, l2: u32, l3: u32) {
     use crate::instruction::verif_gate::*;
     allow_binops(b(crate::BinOperator::Subtract) | b(crate::BinOperator::AssignAdd) | b(crate::BinOperator::AssignSubtract) | b(crate::BinOperator::LShift) | b(crate::BinOperator::RShift) | b(crate::BinOperator::Divide) | b(crate::BinOperator::Modulo));
     allow_unops(u(crate::unary_operator::UnaryOperator::Indirection));
-    allow_mask((1 << K_VARIABLE) | (1 << K_BINOPERATION) | (1 << K_UNARYOPERATION) | (1 << K_BLOCK) | (1 << K_IFELSE) | (1 << K_SET) | (1 << K_ARRAYREPEAT) | (1 << K_ARRAY) | (1 << K_TUPLE) | (1 << K_TUPLEACCESS));
-}
-fn kinds(mask: u32) {
-    use crate::instruction::verif_gate::*;
-    declare();
+    allow_mask(u32::MAX);
     crate::variable::verif_valgate::allow_vals(0);
-    allow_mask((1 << K_VARIABLE) | mask);
+    allow_at(0, l0, u64::MAX);
+    allow_at(1, l1, u64::MAX);
+    allow_at(2, l2, u64::MAX);
+    allow_at(3, l3, u64::MAX);
 }
-use crate::instruction::verif_gate::{K_ARRAYREPEAT, K_BINOPERATION, K_BLOCK, K_IFELSE, K_SET, K_UNARYOPERATION};
+use crate::instruction::verif_gate::{K_ARRAYREPEAT, K_BINOPERATION, K_BLOCK, K_IFELSE, K_LOCALVARIABLE, K_SET, K_UNARYOPERATION, K_VARIABLE};
+const V: u32 = 1 << K_VARIABLE;
+const BO: u32 = 1 << K_BINOPERATION;
+const UO: u32 = 1 << K_UNARYOPERATION;
+const BL: u32 = 1 << K_BLOCK;
+const IE: u32 = 1 << K_IFELSE;
+const ST: u32 = 1 << K_SET;
+const LV: u32 = 1 << K_LOCALVARIABLE;
+const AR: u32 = 1 << K_ARRAYREPEAT;
 fn iws(i: Instruction) -> InstructionWithStr {
     InstructionWithStr { instruction: i, str: "e".into() }
 }
@@ -89,7 +98,8 @@ fn set_then_use(c: i64, k: i64) -> (Instruction, Instruction) {
 #[kani::unwind(5)]
 #[kani::stub(alloc::fmt::format, crate::verif_common::stub_format)]
 pub fn propagate_set_into_use() {
-    kinds((1 << K_BLOCK) | (1 << K_SET) | (1 << K_BINOPERATION) | (1 << K_UNARYOPERATION));
+    // { x := c ; x - k }: block > set | subtraction > constant | *cell | x > cell
+    levels(BL | V, ST | BO | V, V | UO | LV, V);
     let (c, k): (i64, i64) = (kani::any(), kani::any());
     let (f, r) = set_then_use(c, k);
     twin(&f, &r);
@@ -102,7 +112,8 @@ pub fn propagate_set_into_use() {
 #[kani::unwind(5)]
 #[kani::stub(alloc::fmt::format, crate::verif_common::stub_format)]
 pub fn propagate_respects_block_scope() {
-    kinds((1 << K_BLOCK) | (1 << K_SET) | (1 << K_UNARYOPERATION));
+    // { x := c1 ; { x := c2 } ; x }
+    levels(BL | V, ST | BL | LV | V, V | UO | ST, V | UO);
     let (c1, c2): (i64, i64) = (kani::any(), kani::any());
     let mk = |a: Instruction, b: Instruction| -> Instruction {
         let outer_set: Instruction = Set { ident: "x".into(), instruction: iws(a) }.into();
@@ -126,7 +137,8 @@ pub fn propagate_respects_block_scope() {
 #[kani::unwind(5)]
 #[kani::stub(alloc::fmt::format, crate::verif_common::stub_format)]
 pub fn prune_constant_condition() {
-    kinds((1 << K_IFELSE) | (1 << K_BINOPERATION) | (1 << K_UNARYOPERATION));
+    // if cond { acc += a } else { acc -= b }; a pruned branch moves one level up
+    levels(IE | BO, V | UO | BO, V, 0);
     let (a, b): (i64, i64) = (kani::any(), kani::any());
     let c: bool = kani::any();
     let acc_f = new_cell(Type::Int, Variable::Int(0));
@@ -149,7 +161,7 @@ pub fn prune_constant_condition() {
 /// `[v; n]` with constant operands: a negative constant length may be reported at parse time, and
 /// only then; otherwise same array
 fn repeat_twin(n: i64) {
-    kinds((1 << K_ARRAYREPEAT) | (1 << K_UNARYOPERATION));
+    levels(AR | V, V | UO, V, 0);
     let v: i64 = kani::any();
     let f: Instruction = ArrayRepeat { value: iws(lit(v)), len: iws(lit(n)) }.into();
     let r: Instruction = ArrayRepeat { value: iws(hid(v)), len: iws(hid(n)) }.into();
@@ -172,31 +184,39 @@ fn repeat_twin(n: i64) {
 #[kani::proof]
 #[kani::unwind(5)]
 #[kani::stub(alloc::fmt::format, crate::verif_common::stub_format)]
-pub fn array_repeat_constant_length() {
-    repeat_twin(0);
-    repeat_twin(2);
-    repeat_twin(-1);
-    kani::cover!(true);
-}
+pub fn array_repeat_constant_length_0() { repeat_twin(0); kani::cover!(true); }
+#[kani::proof]
+#[kani::unwind(5)]
+#[kani::stub(alloc::fmt::format, crate::verif_common::stub_format)]
+pub fn array_repeat_constant_length_2() { repeat_twin(2); kani::cover!(true); }
+#[kani::proof]
+#[kani::unwind(5)]
+#[kani::stub(alloc::fmt::format, crate::verif_common::stub_format)]
+pub fn array_repeat_constant_length_negative() { repeat_twin(-1); kani::cover!(true); }
 
 /// constant on one side only must never be reported early unless it fails for every value:
 ///   x / 0, x % 0, x << 64 may be rejected at parse time;  0 / x, 63-bit shifts, x / 1 may not
-#[kani::proof]
-#[kani::unwind(4)]
-#[kani::stub(alloc::fmt::format, crate::verif_common::stub_format)]
-pub fn early_errors_only_when_certain() {
-    kinds((1 << K_BINOPERATION) | (1 << K_UNARYOPERATION));
+fn early_twin(op: BinOperator, c: i64, right: bool) {
+    levels(BO | V, V | UO, V, 0);
     let x: i64 = kani::any();
-    let ops = |op: BinOperator, c: i64, right: bool| -> (Instruction, Instruction) {
-        let (fl, fr) = if right { (hid(x), lit(c)) } else { (lit(c), hid(x)) };
-        let (rl, rr) = if right { (hid(x), hid(c)) } else { (hid(c), hid(x)) };
-        (BinOperation { lhs: fl, rhs: fr, op }.into(), BinOperation { lhs: rl, rhs: rr, op }.into())
-    };
-    let (f, r) = ops(BinOperator::LShift, 63, true); twin(&f, &r);
-    let (f, r) = ops(BinOperator::RShift, 63, true); twin(&f, &r);
-    let (f, r) = ops(BinOperator::LShift, 64, true); twin(&f, &r);
-    let (f, r) = ops(BinOperator::Divide, 0, true); twin(&f, &r);
-    let (f, r) = ops(BinOperator::Modulo, 0, false); twin(&f, &r);
-    let (f, r) = ops(BinOperator::Divide, 0, false); twin(&f, &r);
-    kani::cover!(true);
+    let (fl, fr) = if right { (hid(x), lit(c)) } else { (lit(c), hid(x)) };
+    let (rl, rr) = if right { (hid(x), hid(c)) } else { (hid(c), hid(x)) };
+    let f: Instruction = BinOperation { lhs: fl, rhs: fr, op }.into();
+    let r: Instruction = BinOperation { lhs: rl, rhs: rr, op }.into();
+    twin(&f, &r);
 }
+macro_rules! early_harness {
+    ($(#[$m:meta])* $name:ident, $op:expr, $c:expr, $right:expr) => {
+        $(#[$m])*
+        #[kani::proof]
+        #[kani::unwind(4)]
+        #[kani::stub(alloc::fmt::format, crate::verif_common::stub_format)]
+        pub fn $name() { early_twin($op, $c, $right); kani::cover!(true); }
+    };
+}
+early_harness!(early_errors_only_when_certain_shl63, BinOperator::LShift, 63, true);
+early_harness!(early_errors_only_when_certain_shr63, BinOperator::RShift, 63, true);
+early_harness!(early_errors_only_when_certain_shl64, BinOperator::LShift, 64, true);
+early_harness!(early_errors_only_when_certain_div0, BinOperator::Divide, 0, true);
+early_harness!(early_errors_only_when_certain_0mod, BinOperator::Modulo, 0, false);
+early_harness!(#[cfg(feature = "verif_thorough")] early_errors_only_when_certain_0div, BinOperator::Divide, 0, false);
